@@ -16,7 +16,7 @@ def run(ctx):
     ctx.evaluations = sum(len(r["steps"]) for r in rows)
     ctx.distinct = len({(r["id"], i) for r in rows for i, s in enumerate(r["steps"]) if s["op"] in ("tick", "reobs") and s.get("fwd")})
     ctx.rule = ("random chain histories against the simulated node (blocks orphaned / re-included, heights advancing, stalling and jumping, events of the governance contract, "
-                "of foreign senders and look-alike events of other contracts in the same transaction, attestations against 24 token-contract answer shapes, levels 0..254, "
+                "of foreign senders and look-alike events of other contracts in the same transaction, attestations against 21 token-contract answer shapes (each call failing, wrong arity, wrong type, out-of-range decimals, wrong result count, API error), levels 0..255, events landing between count and page requests, page sizes 1..100, "
                 "API errors at each call, both networks); evaluations = steps executed on the real watcher code; distinct non-trivial = steps (height tick / re-observation) "
                 "in which at least one message was forwarded")
     ctx.samples = [{"history": r["id"], "step": s} for r in rows[:40] for s in r["steps"] if s.get("fwd")][:4]
@@ -33,4 +33,5 @@ def run(ctx):
     ctx.assumptions = ["the node's answers are taken at face value: 'at that moment' = according to the answer obtained in that step",
                        "field conversion (ToWormholeMessage, parseAttestToken, toByteVec, toUint8) is an input flag of the model; it is the subject of C11",
                        "int32 / int64 wrap-around of height+level and timestamp+duration is modelled; the theorems assume block heights below 2^31-256 and |timestamps| below 2^62",
-                       "wall-clock comparisons are decided with block timestamps at least 2.5 s away from every hold-time boundary"]
+                       "wall-clock comparisons are decided with block timestamps at least 2.5 s away from every hold-time boundary",
+                       "concurrency: the watcher's goroutines share no state besides the channels; the model interleaves whole steps (one poll, one hand-over, one height tick, one re-observation request)"]
